@@ -13,6 +13,7 @@ import (
 	"fmt"
 	"io"
 	"net/http"
+	"os"
 	"net/http/httptest"
 	"strings"
 	"time"
@@ -122,7 +123,19 @@ func (rn *runner) deadlines(r *lib.RNG) {
 			case "http":
 				w.reset()
 				resp, err := (&http.Client{Timeout: 20 * time.Second}).Post(hs.URL, "application/json", bytes.NewReader(in))
-				if err != nil {
+				if err != nil && os.IsTimeout(err) {
+					// the CLIENT's patience ran out: on a machine that is 20-30x oversubscribed a 25 ms server deadline plus a
+					// handful of goroutine switches can take longer than 20 s (seen once in round 6, load average 450). Wall-clock
+					// time must not decide: ask again with a long deadline; only a server that does not answer then either hangs
+					res.Hit("deadline:http-retry-after-client-timeout")
+					w.reset()
+					resp, err = (&http.Client{Timeout: 240 * time.Second}).Post(hs.URL, "application/json", bytes.NewReader(in))
+					if err != nil && os.IsTimeout(err) {
+						o.Hung = true
+					}
+				}
+				if o.Hung {
+				} else if err != nil {
 					o.Dropped = "http: " + err.Error()
 				} else {
 					o.Out, _ = io.ReadAll(resp.Body)
